@@ -138,13 +138,21 @@ class _FeederRun(Client):
                     if not (isinstance(node.op, ast.Add) and const_value(node.value) == 1):
                         self.problems.append((node.lineno, "R3", f"the counter is updated by `{src(node)}` instead of += 1 per put"))
                     return ((reset, False, cleared),)
-                return ((True, pending, cleared),)
+                # absolute write: a constant is a reset, anything else (e.g. `= i + 1`) sets the count for this call
+                if cleared:
+                    self.problems.append((node.lineno, "R2", f"self.{pf.counter} is written after the flag was cleared"))
+                av = assigned_value(node)
+                is_const = av is not None and const_value(av, None) is not None
+                return ((True, pending if is_const else False, cleared),)
             if fld == pf.flag:
                 av = assigned_value(node)
                 v = const_value(av, None) if av is not None else None
                 if v is not None and not v:
                     if pending:
                         self.problems.append((node.lineno, "R3", "the flag is cleared while a work put is not yet counted"))
+                    if not reset:
+                        self.problems.append((node.lineno, "R1", f"the feeder can finish (e.g. on an empty input) without having "
+                                              f"written self.{pf.counter} for this call: the count of the previous call stays visible"))
                     return ((reset, pending, True),)
                 if v:
                     return ((reset, pending, False),)
@@ -462,12 +470,15 @@ def r8_idiom(prog, rep: Report, pf: PoolFacts):
 
 def batcher_idiom(prog, rep: Report, rule: str, bi: Cls):
     f = bi.methods["__iter__"]
-    top = [s for s in f.node.body if isinstance(s, ast.If)]
+    body = [s for s in f.node.body if not (isinstance(s, ast.Expr) and isinstance(s.value, ast.Constant))]
+    top = [s for s in body if isinstance(s, ast.If) and any(isinstance(x, ast.For) for x in s.body)
+           and any(isinstance(x, ast.For) for x in s.orelse)]
     if len(top) != 1:
         rep.unrec(rule, f, "batches", "isinstance(self.data, tuple) dispatch not found")
         return
-    chunking_idiom(prog, rep, rule, f, "batches:tuple-input", cls=bi, body=top[0].body)
-    chunking_idiom(prog, rep, rule, f, "batches:single-input", cls=bi, body=top[0].orelse, data_expr=f"{f.self_name}.data")
+    trailing = body[body.index(top[0]) + 1:]  # statements shared by both arms (e.g. a common flush of the remainder)
+    chunking_idiom(prog, rep, rule, f, "batches:tuple-input", cls=bi, body=top[0].body + trailing)
+    chunking_idiom(prog, rep, rule, f, "batches:single-input", cls=bi, body=top[0].orelse + trailing, data_expr=f"{f.self_name}.data")
 
 
 # ---------------------------------------------------------------------------------------------- R9
